@@ -25,7 +25,7 @@ func init() {
 	Register("C16", &CheckInfo{
 		Fn: checkC16, Level: "model_checking",
 		Rule: "valset monitor at every EndBlock: the stored bridge validator set == {bonded validators with a registered EVM address and non-zero power} sorted by (power desc, address asc); a new checkpoint is recorded iff none exists, or sum|power changes|/previous total >= 5% (exact rationals), or the last one is older than two weeks (ages within the code's 1s slack are not in the gap alphabet); timestamps strictly increase, indexes contiguous, stored hash/threshold/checkpoint recomputed with the contract-derived encoder; signature slots sized to the previous set; for every new checkpoint all 2^n signer subsets of the previous set in both submission orders are written through the real SetBridgeValsetSignature path (odd subsets through the real PreBlocker with an injected vote-extension tx) with real secp256k1 signatures and a Go transcription of BlobstreamO.updateValidatorSet/_checkValidatorSignatures must accept whenever the signers hold more than 2/3 of the previous set's power; evaluated on an exhaustive DFS depth 4 (quick) / 6 (thorough) over {delegate 490/500 TRB to V1, 250 to V3, self-undelegate 490/500 of V2, late EVM registration of V3, Block 1s/12h/1w/2w-2s/2w+1ms} in three worlds (5000/3000/2000, equal powers, validator cap 2 with a validator entering/leaving)",
-		QuickBudget: 7 * time.Minute, ThoroughBudget: 15 * time.Minute,
+		QuickBudget: 10 * time.Minute, ThoroughBudget: 15 * time.Minute,
 	})
 }
 
@@ -377,6 +377,8 @@ func checkC16(rc *RunCtx) {
 		{"valset-dfs-equal", Config{ValStakes: []int64{3000, 3000, 3000}}},
 		{"valset-dfs-maxval2", Config{ValStakes: []int64{5000, 3000, 2900}, MaxValidators: 2}},
 		{"valset-dfs-late-evm", Config{RegisterEVM: []bool{true, true, false}}},
+		// the first checkpoint records 5000/3000/2000: a delegation of 500 (after a new 12 h period) is a shift of exactly 5%
+		{"valset-dfs-exact5", Config{ValStakes: []int64{4840, 2920, 1970}}},
 	}
 	gaps := []time.Duration{time.Second, 12 * time.Hour, 7 * 24 * time.Hour, 14*24*time.Hour - 2*time.Second, 14*24*time.Hour + time.Millisecond}
 	for _, wd := range worlds {
